@@ -32,6 +32,7 @@ pub fn property() -> Property {
             "scales() of a fitted linear scaler must be positive (documented as the inverse of a standard deviation / range / max |.|)".into(),
             "generated entries are 0 or have magnitude within about 3e-13..7e12 (f32: ..7e9), so sums of squares neither overflow nor underflow; beyond that range NormScaler::l2 and the variances are limited by plain float overflow/underflow, which is not tested".into(),
             format!("whitening is judged only on training data with sample-covariance eigenvalues lambda_min > 0, sqrt((n-1) lambda_min) >= {:e} and lambda_max <= {:e} (linfa clamps singular values / inverse roots at the absolute value 1e-8; data near the clamp are a stated domain limit), and only where the covariance tolerance {}*eps*(n+p)*p*cond + 4*(32*eps*max|x|/sqrt(lambda_min))^2 is <= {:e}; other cases are counted as not judged", whiten::CLAMP_SINGULAR_MIN, whiten::CLAMP_EIGEN_MAX, whiten::K_COV, whiten::COV_TOL_MAX),
+            "a covariance deviation of PCA/ZCA whitening is attributed to the known sporadic non-convergence of linfa-linalg's SVD (signature whiten:svd-sporadic-inaccuracy) only if the returned matrix still has the form the formula guarantees whatever the SVD returns (ZCA symmetric, PCA rows mutually orthogonal) and a fresh fit on at least one re-presentation of the same data (features rotated by 1..p-1 or reversed, rows reversed, other storage order; never re-centred or rescaled) whitens within tolerance. Argument: a wrong formula (n for n-1, missing rotation, missing or wrong centring) yields a transform that is a function of the exact sample covariance, equivariant under these permutations, so its deviation is the same on every presentation and can never be cured by one; every other deviation, all Cholesky and all p = 1 deviations are whiten:covariance-not-identity".into(),
             "row selection must commute bit-for-bit for the element-wise scalers (same arithmetic on both sides, NaNs identified); for whitening (a matrix product) within twice the dot-product tolerance".into(),
             "an all-zero row given to the norm scaler must come back finite and, being a rescaling of the zero vector, all-zero".into(),
             "trusted base: ndarray, vengine::num (covariance, Jacobi eigenvalues), proptest".into(),
